@@ -34,7 +34,9 @@ EXPLANATION = (
     'R-C09.9 app-level before-requirements attach to the app\'s __last__ anchor and after-requirements to its __first__ anchor (reaching definitions of the node argument in EvolutionGraph.add_evolutions); '
     'R-C09.1 sequence chaining is decided by data flow (the freshly created unit depends on the carried-over one); R-C09.10 mutation-generated requirements are merged per key into the declared ones, never assigned over them.'
     ' '
-    'R-C09.11 the loops registering the four kinds of declared requirements are not nested in one another.')
+    'R-C09.11 the loops registering the four kinds of declared requirements are not nested in one another.'
+    ' '
+    'R-C09.1 follows single-assignment copies of the key arguments; R-C09.12 no add_dependency call of EvolutionGraph is conditional on what the graph already contains.')
 NOT_DECIDED = (
     'Correctness of the topological sort on all graphs, and the behaviour '
     'of Django\'s own migration planner.')
@@ -118,8 +120,11 @@ def r1_edge_direction(ctx):
         loop_vars = {x.id for x in ast.walk(loop.target)
                      if isinstance(x, ast.Name)} if loop is not None else set()
         it = unparse(loop.iter) if loop is not None else ''
-        nk_names = {x.id for x in ast.walk(nk) if isinstance(x, ast.Name)}
-        dk_names = {x.id for x in ast.walk(dk) if isinstance(x, ast.Name)}
+        from ..util import expand_expr
+        nk_names = {x.id for e in (nk, expand_expr(m, nk))
+                    for x in ast.walk(e) if isinstance(x, ast.Name)}
+        dk_names = {x.id for e in (dk, expand_expr(m, dk))
+                    for x in ast.walk(e) if isinstance(x, ast.Name)}
         # current node: 'key' (bound from node.key) or node.key
         cur_nk = 'key' in nk_names or unparse(nk) == 'node.key'
         cur_dk = 'key' in dk_names or unparse(dk) == 'node.key'
@@ -868,7 +873,59 @@ def r11_dependency_kinds_registered_independently(ctx):
               n_loops, 2)
 
 
+def r12_declared_requirements_registered_unconditionally(ctx):
+    """DependencyGraph accepts a dependency on a node that is added later
+    (finalize() resolves the keys, and rejects unknown ones).
+    _build_evolutions_graph relies on that: evolutions are registered before
+    the post-stage migrations are.  Registering a declared requirement only
+    when its target *already is* a node (`if key in self._nodes`) silently
+    drops every requirement on a later-registered unit, and turns a
+    requirement on a unit that does not exist from an error into a no-op."""
+    ctx.rule('R-C09.12')
+    p = ctx.program
+    cls = p.cls(G, 'EvolutionGraph')
+    n = 0
+    for m in cls.methods.values():
+        g = None
+        for c in walk_no_nested(m.node):
+            if not (isinstance(c, ast.Call) and
+                    call_name(c) == 'add_dependency' and
+                    is_self_attr(c.func)):
+                continue
+            n += 1
+            if g is None:
+                g = ctx.cfg(m)
+            node = next((x for x in g.nodes if c in x.calls()), None)
+            if node is None:
+                continue
+            bad = []
+            for t in g.nodes:
+                if t.kind not in ('test', 'operand') or t.ast is None:
+                    continue
+                if not (g.guarded_by(node, t, 'T') or
+                        g.guarded_by(node, t, 'F')):
+                    continue
+                if any(isinstance(x, ast.Attribute) and x.attr == '_nodes'
+                       for x in ast.walk(t.ast)) or any(
+                        isinstance(x, ast.Call) and
+                        call_name(x) in ('get_node', 'has_node')
+                        for x in ast.walk(t.ast)):
+                    bad.append(' '.join(unparse(t.ast).split()))
+            if bad:
+                ctx.finding(m, c, '%s registers a requirement only when '
+                            '"%s": a requirement on a unit that is added to '
+                            'the graph later (post-stage migrations are '
+                            'added after the evolutions) is silently '
+                            'dropped' % (m.qualname, '; '.join(bad)),
+                            key='requirement-depends-on-graph-content')
+            else:
+                ctx.ok(m, 'requirement registered whatever the graph '
+                       'contains so far', c)
+    ctx.floor('add_dependency call sites in EvolutionGraph', n, 8)
+
+
 def run(ctx):
+    r12_declared_requirements_registered_unconditionally(ctx)
     r11_dependency_kinds_registered_independently(ctx)
     r10_mutation_deps_merged(ctx)
     r9_anchor_polarity(ctx)
